@@ -265,6 +265,16 @@ def check(ctx):
                 continue
             if isinstance(at, tuple) and at[0] == 'truthy' and isinstance(at[1], str) and 'move_is_quiet(' in at[1]:
                 quiet = bool(at[2])
+        if quiet is None:
+            # the same read off the syntax: the guard is the predicate itself or a never-reassigned local holding it
+            from rules.effects import single_def as _sdq
+            for c, t in gf:
+                c0 = strip_casts(c)
+                if (c0.get('ref') or {}).get('k') == 'Local':
+                    d0 = _sdq(s, c0['ref']['id'])
+                    c0 = strip_casts(d0) if d0 is not None else c0
+                if (c0.get('callee') or {}).get('n') == 'engine::Position::move_is_quiet':
+                    quiet = bool(t)
         if quiet is None and gives and flag_ok:
             kinds = [nq.s(c) for c, t in gf if any(w in nq.s(c) for w in ('move_is_capture(', 'promotion(', 'captured'))]
             if kinds:
